@@ -459,26 +459,19 @@ Proof.
   destruct (0 <? slen sl); reflexivity.
 Qed.
 
-(* the _mut forms leave `&mut []` behind on None (mem::replace); what they
-   return agrees, and so does the slice whenever something was taken *)
-Lemma u_slice_take_first_mut_eq sl :
-  snd (u_slice_take_first_mut sl) = snd (slice_take_first_mut sl) /\
-  (snd (slice_take_first_mut sl) <> None ->
-   u_slice_take_first_mut sl = slice_take_first_mut sl).
+(* the _mut forms leave `&mut []` behind on None: mem::replace(self, &mut []) in
+   std's split_off_first_mut / split_off_last_mut, core::mem::take(slice) in the
+   crate's own stable versions *)
+Lemma u_slice_take_first_mut_eq sl : u_slice_take_first_mut sl = slice_take_first_mut sl.
 Proof.
-  unfold u_slice_take_first_mut, sl_split_off_first_mut, sl_split_first,
-    slice_take_first_mut, slice_take_first.
-  destruct (0 <? slen sl); cbn [snd]; split; congruence.
+  unfold u_slice_take_first_mut, sl_split_off_first_mut, sl_split_first, slice_take_first_mut.
+  destruct (0 <? slen sl); reflexivity.
 Qed.
 
-Lemma u_slice_take_last_mut_eq sl :
-  snd (u_slice_take_last_mut sl) = snd (slice_take_last_mut sl) /\
-  (snd (slice_take_last_mut sl) <> None ->
-   u_slice_take_last_mut sl = slice_take_last_mut sl).
+Lemma u_slice_take_last_mut_eq sl : u_slice_take_last_mut sl = slice_take_last_mut sl.
 Proof.
-  unfold u_slice_take_last_mut, sl_split_off_last_mut, sl_split_last,
-    slice_take_last_mut, slice_take_last.
-  destruct (0 <? slen sl); cbn [snd]; split; congruence.
+  unfold u_slice_take_last_mut, sl_split_off_last_mut, sl_split_last, slice_take_last_mut.
+  destruct (0 <? slen sl); reflexivity.
 Qed.
 
 (* ---- Iter / IterMut --------------------------------------------------------- *)
@@ -527,21 +520,14 @@ Proof. unfold u_iter_next, iter_next. rewrite !u_slice_take_first_eq. reflexivit
 Lemma u_iter_next_back_eq it : u_iter_next_back it = iter_next_back it.
 Proof. unfold u_iter_next_back, iter_next_back. rewrite !u_slice_take_last_eq. reflexivity. Qed.
 
-(* call-site level: next() discards the slice on None *)
 Lemma u_iter_mut_next_eq it : u_iter_mut_next it = iter_mut_next it.
 Proof.
-  unfold u_iter_mut_next, iter_mut_next, iter_next, u_slice_take_first_mut,
-    sl_split_off_first_mut, sl_split_first, slice_take_first.
-  destruct (0 <? slen (it_right it)); [reflexivity|].
-  destruct (0 <? slen (it_left it)); reflexivity.
+  unfold u_iter_mut_next, iter_mut_next. rewrite !u_slice_take_first_mut_eq. reflexivity.
 Qed.
 
 Lemma u_iter_mut_next_back_eq it : u_iter_mut_next_back it = iter_mut_next_back it.
 Proof.
-  unfold u_iter_mut_next_back, iter_mut_next_back, iter_next_back, u_slice_take_last_mut,
-    sl_split_off_last_mut, sl_split_last, slice_take_last.
-  destruct (0 <? slen (it_left it)); [reflexivity|].
-  destruct (0 <? slen (it_right it)); reflexivity.
+  unfold u_iter_mut_next_back, iter_mut_next_back. rewrite !u_slice_take_last_mut_eq. reflexivity.
 Qed.
 
 #[export] Hint Rewrite u_iter_next_eq u_iter_next_back_eq u_iter_mut_next_eq
